@@ -4,6 +4,7 @@ INVARIANT TypeOK
 INVARIANT Compositional
 INVARIANT RoeFalseNeverRaises
 INVARIANT FilterKeeps
+INVARIANT SecondRunSame
 INVARIANT Classical
 INVARIANT NotLaws
 INVARIANT Inside
